@@ -277,7 +277,7 @@ theorem tNext_wside (s : St) : SimT.wside (tNext s).1.t = SimT.wside s.t := by
 frames removeTimer (s : St) (k : Nat) : removeTimer s k ~ s =>
   sidx limit ensureLoop throttleAfterRead inflight cancelQ cancelRxWaker respQ readFused execs done dropped
   t rqWaiters rqAssigned rqAvail nextVis
-  by (unfold removeTimer; split <;> rfl)
+  by (unfold removeTimer; split) <;> (try simp only []) <;> (try split) <;> (try simp only [wakeServer_sidx, wakeServer_limit, wakeServer_ensureLoop, wakeServer_throttleAfterRead, wakeServer_inflight, wakeServer_cancelQ, wakeServer_cancelRxWaker, wakeServer_respQ, wakeServer_readFused, wakeServer_execs, wakeServer_done, wakeServer_dropped, wakeServer_t, wakeServer_rqWaiters, wakeServer_rqAssigned, wakeServer_rqAvail, wakeServer_nextVis]) <;> rfl
 
 frames removeRequest (s : St) (id : Nat) : (removeRequest s id).1 ~ s =>
   sidx limit ensureLoop throttleAfterRead cancelQ cancelRxWaker respQ readFused execs done dropped
@@ -856,7 +856,9 @@ theorem PrimClosed.pollServer (hc : PrimClosed now P) (s : St) (h : P s) : P (po
   simp only
   split
   · exact hc.drop _ (hc.pollServerKeep s h)
-  · exact hc.pollServerKeep s h
+  · split
+    · exact hc.inert _ _ (by inert_tac) (hc.pollServerKeep s h)
+    · exact hc.pollServerKeep s h
 
 /-! ### executions and external events -/
 
@@ -1312,7 +1314,9 @@ theorem W_pollServer {s : St} (h : W s) (hcfg : s.throttleAfterRead = false) (no
   simp only
   split
   · unfold W; rw [dropServer_t]; exact W_pollServerKeep h hcfg now
-  · exact W_pollServerKeep h hcfg now
+  · split
+    · exact W_pollServerKeep h hcfg now
+    · exact W_pollServerKeep h hcfg now
 
 theorem tFrame_closed (t0 : SimT) : ExecClosed (fun s => s.t = t0) where
   inert := fun s s' hi h => by rw [hi.t]; exact h
@@ -1477,7 +1481,9 @@ theorem NS_abortExec {s : St} (r : Nat) (h : NS s) : NS (abortExec s r) := by
 
 theorem NS_removeTimer {s : St} (k : Nat) (h : NS s) : NS (removeTimer s k) := by
   unfold removeTimer; split
-  · exact NS_of_obs h rfl
+  · simp only; split
+    · exact NS_wakeServer (NS_of_obs h rfl)
+    · exact NS_of_obs h rfl
   · exact NS_emit (NS_of_obs h rfl) (by simp)
 
 theorem NS_removeRequest {s : St} (id : Nat) (h : NS s) : NS (removeRequest s id).1 := by
@@ -1506,7 +1512,9 @@ theorem NS_startRequest {s : St} (now id d : Nat) (tr : Trace) (b : Nat) (h : NS
   · exact h
   · split
     · exact NS_emit (NS_of_obs h rfl) (by simp)
-    · exact NS_of_obs h rfl
+    · simp only; split
+      · exact NS_of_obs (s := wakeServer s) (NS_wakeServer h) rfl
+      · exact NS_of_obs h rfl
 
 theorem NS_foldl_abort (es : List SEntry) {s : St} (h : NS s) : NS (es.foldl (fun s e => abortExec s e.rid) s) := by
   induction es generalizing s with
@@ -1551,7 +1559,11 @@ def mu (s : St) : Nat := s.cancelQ.length + s.timers.len + s.t.inbound.length
 theorem removeTimer_len (s : St) (k : Nat) : (removeTimer s k).timers.len ≤ s.timers.len := by
   unfold removeTimer
   split
-  · next q w heq => exact Nat.le_of_lt (DelayQ.remove_len heq)
+  · next q w heq =>
+    have := Nat.le_of_lt (DelayQ.remove_len heq)
+    simp only; split
+    · rw [wakeServer_timers]; exact this
+    · exact this
   · exact Nat.le_refl _
 
 theorem removeRequest_len (s : St) (id : Nat) : (removeRequest s id).1.timers.len ≤ s.timers.len := by
@@ -1598,7 +1610,7 @@ theorem startRequest_none {s : St} {now id d : Nat} {tr : Trace} {b : Nat}
   by_cases hf : (findEntry s id).isSome = true
   · rw [if_pos hf]
   · rw [if_neg hf] at h hp ⊢
-    generalize s.timers.insert now (d - now) id = ins at *
+    generalize s.timers.insert now (clampTimeout (d - now)) id = ins at *
     rcases ins with ⟨q, r, w⟩
     cases r with
     | panic => simp [emit] at hp
@@ -1992,7 +2004,9 @@ theorem NS_pollServer {s : St} (h : NS s) (hcfg : s.throttleAfterRead = false) (
   simp only
   split
   · exact NS_dropServer (NS_pollServerKeep h hcfg hel now)
-  · exact NS_pollServerKeep h hcfg hel now
+  · split
+    · exact NS_of_obs (NS_pollServerKeep h hcfg hel now) rfl
+    · exact NS_pollServerKeep h hcfg hel now
 
 theorem NS_applyOp (c : Sys) (op : SOp) (h : NS c.s) (hcfg : c.s.throttleAfterRead = false)
     (hel : c.s.ensureLoop = false) : NS (applyOp c op).s := by
@@ -2344,7 +2358,9 @@ theorem fails_of_obs {s s' : St} (h : s'.obs = s.obs) : fails s' = fails s := by
 
 @[simp] theorem fails_removeTimer (s : St) (k : Nat) : fails (removeTimer s k) = fails s := by
   unfold removeTimer; split
-  · rfl
+  · simp only; split
+    · rw [fails_wakeServer]; rfl
+    · rfl
   · rw [fails_emit]; rfl
 
 @[simp] theorem fails_removeRequest (s : St) (id : Nat) : fails (removeRequest s id).1 = fails s := by
@@ -2373,7 +2389,9 @@ theorem fails_of_obs {s s' : St} (h : s'.obs = s.obs) : fails s' = fails s := by
   · rfl
   · split
     · rw [fails_emit]; rfl
-    · rfl
+    · simp only; split
+      · exact fails_wakeServer s
+      · rfl
 
 @[simp] theorem fails_rqRelease (s : St) : fails (rqRelease s) = fails s := by
   unfold rqRelease; split
